@@ -141,7 +141,7 @@ def main():
             "evidence_file": f"/verif/evidence/{pid}.json",
             "replay_cmd_template": f"python3 tools/check.py {pid} --replay {{path}}",
             "engine": "lean-proof+correspondence",
-            "level_claimed": {"category": "proof", "text": tech, "design_ref": f"DESIGN.md section {ref}"},
+            "level_claimed": {"category": "proof", "text": tech, "design_ref": f"DESIGN.md section 0.2 (as built) and section {ref} (plan)"},
             "level_note": note,
             "technique": "machine-checked proof in Lean 4 (kernel-checked theorems over a model tied to the source by translator + differential correspondence)",
         })
